@@ -368,14 +368,15 @@ class Hang(Exception):
     pass
 
 
-ENTRIES = ["text", "xml", "html", "pages"]
+ENTRIES = ["text", "xml", "html", "pages", "images"]
 
 
 def run_extract(data, seconds=5, entry="text"):
-    """entry: extract_text / extract_text_to_fp(xml | html, with layout analysis) / extract_pages"""
+    """entry: extract_text / extract_text_to_fp(xml | html, with layout analysis) / extract_pages / extract_text_to_fp(xml) with image export into a scratch directory"""
     from pdfminer.high_level import extract_text, extract_text_to_fp, extract_pages
     from pdfminer.layout import LAParams
-    name = {"text": "extract_text", "xml": "extract_text_to_fp(xml)", "html": "extract_text_to_fp(html)", "pages": "extract_pages"}[entry]
+    name = {"text": "extract_text", "xml": "extract_text_to_fp(xml)", "html": "extract_text_to_fp(html)", "pages": "extract_pages", "images": "extract_text_to_fp(xml, output_dir=...)"}[entry]
+    outdir = None
 
     def onalarm(*a):
         raise Hang()
@@ -392,6 +393,14 @@ def run_extract(data, seconds=5, entry="text"):
         elif entry == "pages":
             for pg in extract_pages(io.BytesIO(data)):
                 list(pg)
+        elif entry == "images":
+            import tempfile
+            outdir = tempfile.mkdtemp(prefix="verif-c13-")
+            extract_text_to_fp(io.BytesIO(data), io.BytesIO(), output_type="xml", laparams=LAParams(), codec="utf-8", output_dir=outdir)
+            import os
+            written = sum(os.path.getsize(os.path.join(outdir, f)) for f in os.listdir(outdir))
+            if written > (64 << 20):
+                return "%s wrote %d bytes of image files for a document of %d bytes" % (name, written, len(data))
         else:
             extract_text_to_fp(io.BytesIO(data), io.BytesIO(), output_type=entry, laparams=LAParams(), codec="utf-8")
         return None
@@ -407,6 +416,9 @@ def run_extract(data, seconds=5, entry="text"):
         resource.setrlimit(resource.RLIMIT_AS, (soft, hard))
         signal.alarm(0)
         signal.signal(signal.SIGALRM, old)
+        if outdir is not None:
+            import shutil
+            shutil.rmtree(outdir, ignore_errors=True)
 
 
 def h4_faults(timeout=300, part=None, exclude=(), seed=1, depth=1, **kw):
@@ -602,11 +614,12 @@ def h4_huge(timeout=300, part=None, **kw):
             data = huge_doc(where, site, HUGE[j])
         except Exception:
             raise symx.Abort()
-        r = run_extract(data)
-        ex.require(r is None, "%s entry %s set to %d: %s" % (where, site, HUGE[j], r), i=i, j=j)
+        entry = ("text", "images")[ex.choice(2, "entry")]
+        r = run_extract(data, entry=entry)
+        ex.require(r is None, "%s entry %s set to %d: %s" % (where, site, HUGE[j], r), i=i, j=j, entry=entry)
 
     def conc(m, info):
-        return {"what": "huge", "i": info["i"], "j": info["j"]}
+        return {"what": "huge", "i": info["i"], "j": info["j"], "entry": info["entry"]}
     from pdfminer import high_level
     return core.run_symx("H4_faults", fn, [high_level.extract_text], {"sites": [str(x) for x in HUGE_SITES], "values": HUGE, "work bound": "5 s alarm, 2 GiB address-space allowance"}, timeout, concretize=conc, part=part)
 
@@ -959,7 +972,7 @@ def replay(harness, inp):
         return None if r is None else "%s (%s): %s" % (desc, data.hex(), r)
     if what == "huge":
         where, site = HUGE_SITES[inp["i"]]
-        r = run_extract(huge_doc(where, site, HUGE[inp["j"]]))
+        r = run_extract(huge_doc(where, site, HUGE[inp["j"]]), entry=inp.get("entry", "text"))
         return None if r is None else "%s document with entry %s set to %d: %s" % (where, site, HUGE[inp["j"]], r)
     if what == "cmap":
         toks = list(CMAP_TOKENS)
